@@ -206,8 +206,13 @@ func main() {
 			}
 			return b.String()
 		}
+		// what GetShardStates last said about a shard, kept only while nothing but ticks and queries happens
+		lastStates := map[uint64]string{}
 		for i := 0; i < *length; i++ {
 			x := r.Intn(100)
+			if !(x >= 50 && x < 62) && x < 72 {
+				lastStates = map[uint64]string{}
+			}
 			switch {
 			case x < 10:
 				id := uint64(1 + r.Intn(3))
@@ -311,6 +316,30 @@ func main() {
 				if len(got) > 0 {
 					run.Count("c17:nonempty_reply")
 				}
+				// who leads a shard is what its members last said: a replica the view knows, reporting for a membership
+				// version at least the view's, is shown as the leader exactly when it says so - whether or not the shard
+				// counts as available
+				perShard := map[uint64]int{}
+				for _, ci := range u.NodehostInfo.ShardInfo {
+					perShard[ci.ShardId]++
+				}
+				for _, ci := range u.NodehostInfo.ShardInfo {
+					if perShard[ci.ShardId] != 1 {
+						continue
+					}
+					st, err := srv.GetShardStates(ctx(), &pb.ShardStateRequest{ShardIdList: []uint64{ci.ShardId}})
+					if err != nil || len(st.Collection) != 1 {
+						continue
+					}
+					a := st.Collection[0]
+					if _, member := a.Replicas[ci.ReplicaId]; !member || a.ConfigChangeIndex > ci.ConfigChangeIndex {
+						continue
+					}
+					run.Count(fmt.Sprintf("c17:leader_checked_after_report_available_%v", a.State == pb.ShardState_OK))
+					if ci.IsLeader != (a.LeaderReplicaId == ci.ReplicaId) {
+						fail("query_reflects_state", "leader-not-as-reported", fmt.Sprintf("replica %d of shard %d just reported leader=%v for membership version %d; GetShardStates shows version %d, available=%v, leader %d", ci.ReplicaId, ci.ShardId, ci.IsLeader, ci.ConfigChangeIndex, a.ConfigChangeIndex, a.State == pb.ShardState_OK, a.LeaderReplicaId))
+					}
+				}
 			case x < 62:
 				op := dbx.Op{Op: "tick"}
 				res, err := propose(h, op.ToUpdate())
@@ -402,6 +431,16 @@ func main() {
 							return p.String()
 						}
 						fmt.Fprintf(&b, "%d:%d:%v:%d:[%s]:[%s],", a.ShardId, a.ConfigChangeIndex, a.State == pb.ShardState_OK, a.LeaderReplicaId, pairs(a.Replicas), pairs(a.RPCAddresses))
+						// time alone changes availability and nothing else: who leads, who is a member and where they are reachable
+						// is what the hosts last reported
+						now := fmt.Sprintf("version %d leader %d members [%s] at [%s]", a.ConfigChangeIndex, a.LeaderReplicaId, pairs(a.Replicas), pairs(a.RPCAddresses))
+						if was, ok := lastStates[a.ShardId]; ok {
+							run.Count("c17:states_compared_across_ticks")
+							if was != now {
+								fail("query_reflects_state", "states-changed-without-a-report", fmt.Sprintf("GetShardStates for shard %d answered %q, then with only ticks and queries in between %q", a.ShardId, was, now))
+							}
+						}
+						lastStates[a.ShardId] = now
 					}
 					res = b.String()
 				}
